@@ -158,6 +158,9 @@ def categories(array, highlevel=True):
     output = [None]
 
     def getfunction(layout):
+        if isinstance(layout, ak.partition.PartitionedArray):
+            return None
+
         if layout.parameter("__array__") == "categorical":
             output[0] = layout.content
             return lambda: layout
@@ -246,6 +249,9 @@ def to_categorical(array, highlevel=True):
     """
 
     def getfunction(layout):
+        if isinstance(layout, ak.partition.PartitionedArray):
+            return None
+
         if layout.purelist_depth == 1:
             if isinstance(layout, ak._util.optiontypes):
                 layout = layout.simplify()
